@@ -63,6 +63,18 @@ spec:
   images: []
 `
 
+// bigDocs: eight ConfigMaps of ~300 KiB each in phase p1.
+func bigDocs() string {
+	var sb strings.Builder
+	for i := 0; i < 8; i++ {
+		if i > 0 {
+			sb.WriteString("---\n")
+		}
+		sb.WriteString(cmDoc(fmt.Sprintf("big%d", i), "p1", strings.Repeat(string(rune('a'+i)), 300<<10)))
+	}
+	return sb.String()
+}
+
 func cmDoc(name, phase, val string) string {
 	return fmt.Sprintf("apiVersion: v1\nkind: ConfigMap\nmetadata:\n  name: %s\n  annotations:\n    package-operator.run/phase: %s\ndata:\n  v: %q\n", name, phase, val)
 }
@@ -135,6 +147,12 @@ func Fixtures() map[string]fixture {
 		"img/hosted:v1": {"valid", packages.Files{
 			"manifest.yaml": []byte(manifestYAML("app", "  config:\n    openAPIV3Schema:\n      type: object\n      properties:\n        x:\n          type: string\n")),
 			"a.yaml.gotmpl": []byte("apiVersion: v1\nkind: ConfigMap\nmetadata:\n  name: cm1\n  annotations:\n    package-operator.run/phase: p1\ndata:\n  x: {{ if hasKey .config \"x\" }}{{ .config.x | quote }}{{ else }}\"-\"{{ end }}\n" + tmplEnvLine),
+		}},
+		// a phase larger than 1 MiB: the default chunking strategy (bin-packing into ObjectSlices) has several bins to fill
+		"img/big:v1": {"valid", packages.Files{
+			"manifest.yaml": []byte(manifestYAML("app", "")),
+			"a.yaml":        []byte(bigDocs()),
+			"b.yaml":        []byte(widgetDoc("w1", "p2", 1)),
 		}},
 		"img/broken:v1": {"pullError", nil},
 		// a multi-component package: spec.component selects what is deployed ("" = the root)
@@ -420,6 +438,8 @@ func packageScenarios() []Scenario {
 		// HyperShift management cluster: p1 in a plain namespace, ph (same image) in the namespace of hosted cluster "one";
 		// both are unpacked by the same controller (one environment sink); only p1's config is edited
 		hostedScenario(),
+		// a package whose first phase exceeds the slice size limit (default chunking strategy)
+		pinned("pkg-big", "img/big:v1"),
 		// created already paused: nothing may be pulled or deployed until it is unpaused
 		{Name: "pkg-paused-start", Setup: func(w *World) {
 			p := NewPackage("p1", "img/valid:v1", nil)
@@ -427,6 +447,11 @@ func packageScenarios() []Scenario {
 			w.EnvCreate(p)
 		}},
 	}
+}
+
+func pinned(name, image string) Scenario {
+	configPools[name] = []map[string]any{nil}
+	return Scenario{Name: name, Setup: func(w *World) { w.EnvCreate(NewPackage("p1", image, nil)) }}
 }
 
 func hostedScenario() Scenario {
